@@ -53,3 +53,7 @@ Definition check_multi_support (nvec : list nat) (l : list Q) (legal : list bool
   list_eqb nats_eqb (multi_support nvec l legal) obs.
 Definition check_binary_support (l : list Q) (legal : list bool) (obs : list bool) : bool :=
   list_eqb Bool.eqb (binary_support l legal) obs.
+
+(* IPPO: supports of all rows of the shared actor's batch (agent-major) *)
+Definition check_ippo_supports (l : list Q) (per_agent_masks : list (list (list bool))) (obs : list (list nat)) : bool :=
+  list_eqb nats_eqb (ippo_supports l per_agent_masks) obs.
